@@ -45,6 +45,13 @@ def gen_cases(tier: str, seed: int):
     rng = np.random.default_rng([seed, 13])
     yield {"cfg": {"n_chain": 2, "n_warm": 2, "n_main": 3, "adapters": ["step"], "seed": 5, "trace": ["pos"], "transition": "static",
                    "init": "state"}, "modes": [{"n_process": None}], "seed": [seed, 0]}
+    # directed: no trace functions at all (trace_funcs=None: statistics only) with every stager and traced warm-up
+    for j, (adapters, stager) in enumerate([(["step", "var"], None), (["step", "var"], [2, 1, 1, 2.0]), (["var"], [2, 0, 0, 2.0]),
+                                            (["step"], "warmup"), (["step"], None), ([], None)]):
+        yield {"cfg": {"n_chain": 2, "n_warm": [6, 12, 9][j % 3], "n_main": 3, "adapters": adapters, "stager": stager, "seed": 40 + j,
+                       "trace": "none", "trace_warm_up": True, "transition": ["static", "multinomial"][j % 2], "init": "dict",
+                       "front_end": "mcmc", "dim": 2, "model_seed": j},
+               "modes": [[{"force_memmap": True}, {"n_process": 2}][j % 2]], "seed": [seed, 900 + j]}
     for i in range(n):
         adapters, stager = [([], None), (["step"], None), (["step"], "warmup"), (["step", "var"], None),
                             (["step", "var"], [2, 1, 1, 2.0]), (["var"], [2, 0, 0, 2.0])][i % 6]
@@ -67,6 +74,8 @@ def gen_cases(tier: str, seed: int):
             cfg["init"] = "dict"
         if cfg["front_end"] == "hmc" and cfg["init"] == "dict":  # the HMC front end documents arrays or ChainState only
             cfg["init"] = "state"
+        if cfg["front_end"] == "mcmc" and rng.integers(0, 4) == 0:
+            cfg["trace"] = "none"  # trace_funcs=None
         if cfg["front_end"] == "mcmc" and rng.integers(0, 2):
             cfg["extra_transition"] = True  # two transitions with statistics of the same names
         if rng.integers(0, 4) == 0:
